@@ -67,7 +67,17 @@ func runC18(c *Ctx) {
 	r := c.rng
 	junk := []byte{0xff, 0x01, 0x80}
 
+	// a primitive that panics is reported with its input rather than taking the harness down
+	guard := func(desc string) func() {
+		c.crumb(desc)
+		return func() {
+			if r := recover(); r != nil {
+				c.native = append(c.native, NativeViolation{Case: desc, What: fmt.Sprint("panicked: ", r), Class: "primitive-panics"})
+			}
+		}
+	}
 	varuint := func(v uint64) {
+		defer guard(fmt.Sprintf("varuint %d", v))()
 		bs := plenccore.AppendVarUint(nil, v)
 		sz := plenccore.SizeVarUint(v)
 		rv, rn := plenccore.ReadVarUint(append(append([]byte{}, bs...), junk...))
@@ -76,6 +86,7 @@ func runC18(c *Ctx) {
 		c.count(fmt.Sprintf("varuint_len_%d", len(bs)))
 	}
 	varint := func(v int64) {
+		defer guard(fmt.Sprintf("varint %d", v))()
 		u := plenccore.ZigZag(v)
 		bs := plenccore.AppendVarInt(nil, v)
 		sz := plenccore.SizeVarInt(v)
@@ -90,6 +101,7 @@ func runC18(c *Ctx) {
 		c.count("zagzig")
 	}
 	tag := func(wt plenccore.WireType, idx int) {
+		defer guard(fmt.Sprintf("tag wt=%d idx=%d", wt, idx))()
 		bs := plenccore.AppendTag(nil, wt, idx)
 		sz := plenccore.SizeTag(wt, idx)
 		rwt, ridx, rn := plenccore.ReadTag(append(append([]byte{}, bs...), junk...))
@@ -98,6 +110,7 @@ func runC18(c *Ctx) {
 		c.count(fmt.Sprintf("tag_wt_%d", wt))
 	}
 	readraw := func(bs []byte) {
+		defer guard(fmt.Sprintf("ReadVarUint %x", bs))()
 		rv, rn := plenccore.ReadVarUint(bs)
 		c.add(fmt.Sprintf("KReadRaw %s %d %s", coqBytes(bs), rv, coqZ(int64(rn))),
 			fmt.Sprintf("readraw %x", bs), fmt.Sprintf("readraw/n%d", rn), len(bs) > 1)
